@@ -33,6 +33,16 @@ def run(pid, tier, seed, res, seeds_extra=None, only=None):
         dict(kind="exec", run_debug=True, target=[["id", "n0"]], exclude=None, root=None, in_hypothesis=True),
         dict(kind="exec", run_debug=True, target=[["id", "n0"], ["id", "n1"]], exclude=None, root=None, in_hypothesis=True),
         dict(kind="exec", run_debug=False, target=None, exclude=[["id", "n1"]], root=None, in_hypothesis=True)]))
+    # a short root closure next to a large unrelated component, exclusions inside a long chain of the closure
+    # (the order in which the nodes of a sub-graph are visited must not matter)
+    big = [[6, j] for j in range(7, 14)] + [[7, 10], [8, 11], [9, 12], [10, 13]]
+    for ch in ([[0, 1], [1, 2], [2, 3], [3, 4], [4, 5]], [[0, 1], [0, 2], [1, 3], [2, 3], [3, 4], [4, 5]]):
+        cases.append(dict(kind="graph", n=14, edges=ch + big, prios=[0] * 14, debug=[], setup=[], tags={}, consts={}, queries=[
+            dict(kind="exec", run_debug=False, target=None, exclude=[["id", "n1"]], root=[["id", "n0"]], in_hypothesis=True),
+            dict(kind="exec", run_debug=False, target=None, exclude=[["id", "n2"]], root=[["id", "n0"]], in_hypothesis=True),
+            dict(kind="exec", run_debug=False, target=None, exclude=[["ref", 3]], root=[["ref", 0]], in_hypothesis=True),
+            dict(kind="exec", run_debug=False, target=[["id", "n1"]], exclude=[["id", "n3"]], root=[["id", "n0"]], in_hypothesis=True),
+            dict(kind="exec", run_debug=False, target=None, exclude=[["id", "n7"]], root=[["id", "n6"]], in_hypothesis=True)]))
     for _ in range(ncases):
         cases.append(kgraph.gen_queries(rng, kgraph.gen_graph_case(rng, max_n=7 if tier == "quick" else 9), k=6))
     n_exh = 0
